@@ -36,6 +36,7 @@ var c02Pins = []pin{
 	{"GenFuncVar", "nf", "if(slice.IsEmpty(p2), New_VarRef_VRVar(Var{Name: p0, Ftype: New_FType_FFunc(GenFunc(p1, p2, p3))}), New_VarRef_VRSVar(SpecVar{Var: Var{Name: p0, Ftype: New_FType_FFunc(GenFunc(p1, p2, p3))}, SpecList: p2}))", "every reference instantiates the factory again"},
 	{"GenFunc", "nf", `seq[if((slice.Len(p1) > slice.Len(p0.Tparams)), seq[PanicNow("Too many type specified.")])] FuncType{Targets: slice.Map(tpreplace(dict.ToDict(slice.Mapi(tpname2tvtp(p2, p1, _, _), p0.Tparams)), _), p0.Targets)}`, "type parameters are replaced positionally in all targets"},
 	{"tpname2tvtp", "nf", "if((slice.Len(p1) > p2), (p3, slice.Item(p2, p1)), (p3, New_FType_FTypeVar(p0())))", "an explicit type argument if given, else a FRESH type variable from the generator"},
+	{"GenRecordTypeByTgen", "nf", `GenRecordType(p0, slice.Map(\x0. New_FType_FTypeVar(p1()), p0.Tparams))`, "a literal of a generic record gets one FRESH type variable per type parameter"},
 	{"scRegFunFac", "nf", "seq[scRegisterVarFac(p0, p1, GenFuncVar(p1, p2, _, _))]", "a function name resolves through the factory at every reference"},
 }
 
@@ -55,6 +56,7 @@ func checkC02(c *Ctx) {
 	r.Rule("C02.f", "each record/union instance is handled once per traversal and correctly: instance keys; a never-cleared visited set only where a repeated instance contributes the empty list; memo tables follow the placeholder discipline (hit returns the stored value, miss stores the input first and its result last)", 15)
 	r.Import("C15.", "C02.g", "the inferred types are printed by the documented type mapping (the C15 conditions: base-type table, printer templates, grammar of annotations)", 20, func() { checkC15(c) })
 	r.Rule("C02.a2", "the type-variable collector and the substitution visit the same components of every FType constructor (payload fields carrying types, unfolding through the info table)", 5)
+	r.Rule("C02.c2", "every type-variable generator handed to a function is applied or passed on by it (fresh instantiation is not silently replaced by reuse of names)", 10)
 	r.Rule("C02.e", "no unification obligation is dropped: every call result carrying a []UniRel is bound, returned or passed on", 40)
 	f := c.LoadFC("fc")
 	if f == nil {
@@ -142,6 +144,8 @@ func checkC02(c *Ctx) {
 	checkGuardDiscipline(c, f)
 	// (a2)
 	checkSiblingComponents(c, f)
+	// (c2)
+	checkGeneratorsUsed(c, f)
 	// (b)
 	tv := newTravAn(c, f)
 	tv.checkTraversal("C02.b", "collectExprRel", []string{"collectBlock", "collectStmtRel", "collectSlice"}, 6)
